@@ -103,6 +103,11 @@ def base_message(refs=None, aux=None):
     y.uuid = ub("syB")
     y.name = "b"
     y.value = 0
+    # an expression of the later module naming a symbol of the earlier one (referentially closed, file order respected)
+    e = bi.symbolic_expressions[0]
+    e.addr_addr.scale = 2
+    e.addr_addr.symbol1_uuid = ub("syA1")
+    e.addr_addr.symbol2_uuid = ub("syB")
     ed = msg.cfg.edges.add()
     ed.source_uuid = refs.get("edge_source", ub("cbA"))
     ed.target_uuid = refs.get("edge_target", ub("pxA"))
@@ -110,6 +115,10 @@ def base_message(refs=None, aux=None):
     ed = msg.cfg.edges.add()
     ed.source_uuid = ub("cbA")
     ed.target_uuid = ub("cbA")                       # self loop without label
+    # the vertex list as a writer produces it, plus whatever the edges name (a foreign writer may list anything)
+    for v in (ub("cbA"), ub("pxA"), ub("cbB"), refs.get("edge_source"), refs.get("edge_target")):
+        if v is not None and v not in msg.cfg.vertices:
+            msg.cfg.vertices.append(v)
     for (level, key, tname, data) in (aux or []):
         holder = msg if level == "ir" else msg.modules[0]
         holder.aux_data[key].type_name = tname
@@ -223,6 +232,9 @@ def run_refs(choice):
             return "edge endpoints do not name the selected nodes"
     if len(ir.cfg) != 2 and not (refs.get("edge_source") == ub("cbA") and refs.get("edge_target") == ub("cbA")):
         return "edge count"
+    eb = tree[U(14)].symbolic_expressions[0]
+    if eb.symbol1 is not tree[U(8)] or eb.symbol2 is not tree[U(18)]:
+        return "expression of the second module does not name the first module's symbol object"
     return None
 
 
@@ -412,6 +424,65 @@ def all_contained(ir):
     return out
 
 
+def file_version(v: int) -> bool:
+    """
+    pre: 0 <= v < 8
+    post: __return__
+    """
+    # whole-file path: correct header, otherwise valid message whose version field is v (0 = field absent in proto3)
+    x = (0, 1, 2, 3, 4, 5, 255, 2 ** 32 - 1)[pick(v, 8)]
+    with untraced():
+        import io
+
+        msg = base_message()
+        msg.version = x
+        data = b"GTIRB\x00\x00" + bytes([PV]) + msg.SerializeToString()
+        why = None
+        try:
+            ir = gtirb.IR.load_protobuf_file(io.BytesIO(data))
+            if x != PV:
+                why = "a file whose message carries version %d was loaded (as version %r)" % (x, ir.version)
+            elif ir.version != PV:
+                why = "version attribute"
+        except ValueError:
+            if x == PV:
+                why = "a file produced with the right version was rejected"
+        except Exception as e:  # noqa: BLE001
+            why = "rejected with %s, not ValueError" % type(e).__name__
+    if why:
+        return fail(why)
+    return done()
+
+
+def ref_fault(r: int, t: int) -> bool:
+    """
+    pre: 0 <= r < len(REFS) and 0 <= t < len(TARGETS) + 3
+    post: __return__
+    """
+    # a single dangling / ill-typed / wrong-length reference: reject, or return a coherent IR
+    ref = REFS[pick(r, len(REFS))]
+    ti = pick(t, len(TARGETS) + 3)
+    with untraced():
+        if ti < len(TARGETS):
+            val = ub(TARGETS[ti])
+            name = TARGETS[ti]
+        else:
+            val = (b"", bytes(15), bytes(17))[ti - len(TARGETS)]
+            name = "len%d" % len(val)
+        msg = base_message({ref: val})
+        why = None
+        try:
+            ir = gtirb.IR._from_protobuf(msg, None)
+        except Exception:  # noqa: BLE001
+            ir = None
+        if ir is not None:
+            why = coherent(ir)
+    if why:
+        return fail("%s := %s: %s" % (ref, name, why))
+    count("scenarios")
+    return done()
+
+
 def coherent(ir):
     """C17 post: C03 and C04 hold, typed references, bytes within size, can be saved again"""
     if not isinstance(ir, gtirb.IR):
@@ -427,6 +498,10 @@ def coherent(ir):
         for y in m.symbols:
             if y.referent is not None:
                 extra.append(y.referent)
+            if y.value is not None and not isinstance(y.value, int):
+                return "symbol value is a %s, not an integer" % type(y.value).__name__
+            if y._payload is not None and y.value is None and y.referent is None:
+                return "symbol payload is neither an integer nor a block"
         if m.entry_point is not None:
             extra.append(m.entry_point)
     for e in ir.cfg:
